@@ -240,26 +240,28 @@ class Hang(Exception):
 
 class deadline:
     """`with deadline(seconds): call()` inside a pool worker (main thread of its process): raises Hang when the call
-    does not return in time — a non-terminating implementation must become a verdict, not a check that never ends"""
+    has consumed `seconds` of CPU time without returning — a non-terminating implementation must become a verdict, not a
+    check that never ends.  The timer counts the process's CPU time (ITIMER_PROF), not wall-clock time, so a loaded
+    or stalled machine cannot turn a slow run into a false alarm."""
 
     def __init__(self, seconds: float):
         self.seconds = seconds
 
     def _raise(self, *_):
-        raise Hang(f"no result after {self.seconds} s")
+        raise Hang(f"no result after {self.seconds} s of CPU time")
 
     def __enter__(self):
         import signal
 
-        self._old = signal.signal(signal.SIGALRM, self._raise)
-        signal.setitimer(signal.ITIMER_REAL, self.seconds)
+        self._old = signal.signal(signal.SIGPROF, self._raise)
+        signal.setitimer(signal.ITIMER_PROF, self.seconds)
         return self
 
     def __exit__(self, *exc):
         import signal
 
-        signal.setitimer(signal.ITIMER_REAL, 0)
-        signal.signal(signal.SIGALRM, self._old)
+        signal.setitimer(signal.ITIMER_PROF, 0)
+        signal.signal(signal.SIGPROF, self._old)
         return False
 
 
